@@ -60,6 +60,106 @@ def goodPrefix : Nat → List Seg → List Seg → Option Nat
     else some (packageEncryptionChunkSize * j)
   | j, _, _ => some (packageEncryptionChunkSize * j)
 
+/-! ## agile package: data flow of `decryptPackage` and the encryptor the format prescribes -/
+
+/-- AES-CBC under the package key with the IV of segment `i` (`createIV(i)`), abstract -/
+structure Cbc where
+  enc : Nat → List Nat → List Nat
+  dec : Nat → List Nat → List Nat
+
+/-- zero padding to the 16-byte block (`append(inputChunk, make([]byte, BlockSize-remainder)...)`) -/
+def pad16l (x : List Nat) : List Nat := x ++ List.replicate ((16 - x.length % 16) % 16) 0
+
+/-- `decryptPackage`: for each chunk taken by the segment loop, pad, decrypt with IV index `i`, append -/
+def decBySegs (c : Cbc) (input : List Nat) : List Seg → List Nat
+  | [] => []
+  | (i, lo, hi) :: r => c.dec i (pad16l ((input.drop lo).take (hi - lo))) ++ decBySegs c input r
+
+def agileDecryptPkg (c : Cbc) (input : List Nat) : Option (List Nat) :=
+  match decryptPackageSegs input.length with
+  | .ok segs => some (decBySegs c input segs)
+  | .err => none
+
+/-- the same data flow written as a recursion over the remaining cipher text -/
+def agileDecData (c : Cbc) : Nat → Nat → List Nat → List Nat
+  | 0, _, _ => []
+  | f + 1, i, data =>
+    if data.isEmpty then []
+    else c.dec i (pad16l (data.take packageEncryptionChunkSize))
+      ++ agileDecData c f (i + 1) (data.drop packageEncryptionChunkSize)
+
+/-- [MS-OFFCRYPTO] 2.3.4.15 encryptor: 4096-byte plaintext segments, the last padded to the block,
+segment `i` encrypted with IV `i` -/
+def agileEncData (c : Cbc) : Nat → Nat → List Nat → List Nat
+  | 0, _, _ => []
+  | f + 1, i, plain =>
+    if plain.isEmpty then []
+    else c.enc i (pad16l (plain.take packageEncryptionChunkSize))
+      ++ agileEncData c f (i + 1) (plain.drop packageEncryptionChunkSize)
+
+def le64n (n : Nat) : List Nat := (List.range 8).map (fun i => n / 256 ^ i % 256)
+
+/-- the EncryptedPackage stream of an agile document -/
+def agileEncryptPkg (c : Cbc) (plain : List Nat) : List Nat :=
+  le64n plain.length ++ agileEncData c plain.length 0 plain
+
+/-! ## standard encryption: the guards of `Decrypt` / `standardDecrypt` on the EncryptionInfo stream -/
+
+def le16At (b : List Nat) (o : Nat) : Nat := b.getD o 0 + 256 * b.getD (o + 1) 0
+def le32At (b : List Nat) (o : Nat) : Nat :=
+  b.getD o 0 + 256 * b.getD (o + 1) 0 + 65536 * b.getD (o + 2) 0 + 16777216 * b.getD (o + 3) 0
+
+inductive GOut where
+  | ok (alg : Nat) (keyLen : Nat)   -- alg 0 = RC4, 1 = AES; key bytes handed to aes.NewCipher
+  | err
+  | agile
+  | panic
+deriving Repr, DecidableEq
+
+/-- a Go slice expression `b[lo:hi]` on a slice of length `len` is in range -/
+def sliceOK (lo hi len : Nat) : Bool := lo ≤ hi && hi ≤ len
+
+/-- 0 = RC4, 1 = AES: `_, ok := algIDMap[header.AlgID]` -/
+def algOf (algId : Nat) : Nat := if algId = sdAes128 ∨ algId = sdAes192 ∨ algId = sdAes256 then 1 else 0
+
+/-- `map[string]int{"RC4": 60, "AES": 72}[algorithm]` -/
+def verifierMin (alg : Nat) : Nat := if alg = 0 then sdVerifierRC4 else sdVerifierAES
+
+/-- end of the last slice `standardEncryptionVerifier` takes for the algorithm -/
+def verifierEnd (alg : Nat) : Nat := if alg = 0 then svHashHiRC4 else svHashHiAES
+
+/-- `standardEncryptionVerifier`: every slice it takes from a verifier blob of length `len` -/
+def verifierSlicesOK (alg len : Nat) : Bool :=
+  sliceOK 0 svSaltSizeHi len && sliceOK svSaltLo svSaltHi len && sliceOK svVerLo svVerHi len
+    && sliceOK svHsLo svHsHi len
+    && (if alg = 0 then sliceOK svHashLoRC4 svHashHiRC4 len else sliceOK svHashLoAES svHashHiAES len)
+
+/-- `encryptionMechanism` + `standardDecrypt` up to the block loop, on the numbers read from the
+stream: `L` = len(EncryptionInfo), version, header size, AlgID, KeySize; which inputs are rejected,
+which reach a slice expression that is out of range (panic), which go on to decrypt -/
+def guardsCore (L major minor hs algId keyBits pkgLen : Nat) : GOut :=
+  if major = 4 ∧ minor = 4 then .agile
+  else if ¬ ((2 ≤ major ∧ major ≤ 4) ∧ minor = 2) then .err
+  else if L < sdInfoMin ∨ pkgLen < sdPkgMin then .err
+  else if ¬ sliceOK sdHsLo sdHsHi L then .panic
+  else if hs < sdHdrMin ∨ hs > L - sdHdrBase then .err
+  else if ¬ sliceOK sdBlockLo (sdBlockLo2 + hs) L then .panic
+  else if ¬ (sliceOK sdAlgLo sdAlgHi hs ∧ sliceOK sdKeyLo sdKeyHi hs ∧ sliceOK sdResLo sdResHi hs
+              ∧ sliceOK sdCspLo hs hs) then .panic
+  else if ¬ sliceOK (sdRestLo + hs) L L then .panic
+  else if L - (sdRestLo + hs) < verifierMin (algOf algId) then .err
+  else if ¬ verifierSlicesOK (algOf algId) (L - (sdRestLo + hs)) then .panic
+  else if keyBits / 8 > 40 then .err                  -- cbRequiredKeyLength > len(x3), two SHA-1 digests
+  else if ¬ sliceOK decOffset pkgLen pkgLen then .panic   -- x := encryptedPackageBuf[8:]
+  else if ¬ (keyBits / 8 = 16 ∨ keyBits / 8 = 24 ∨ keyBits / 8 = 32) then .err   -- aes.NewCipher
+  else if (pkgLen - decOffset) % decBlock ≠ 0 then .err
+  else .ok (algOf algId) (keyBits / 8)
+
+def standardGuards (info : List Nat) (pkgLen : Nat) : GOut :=
+  if info.length < 4 then .err
+  else guardsCore info.length (le16At info 0) (le16At info 2) (le32At info sdHsLo)
+        (le32At info (sdBlockLo + sdAlgLo)) (le32At info (sdBlockLo + sdKeyLo)) pkgLen
+
 /-! ## password → UTF-16LE -/
 
 /-- UTF-16LE code units of one scalar value -/
